@@ -231,6 +231,9 @@ impl PathWorker for ScanWithConfig {
       let processed = match_rule_diff_on_file(path, all_diffs, processor)?;
       ret.insert(0, processed);
     }
+    // (verif hook: the update of the shared error total is a schedule point of the walker thread)
+    #[cfg(ast_grep_verif)]
+    crate::utils::verif_sched::point("atomic", "error_count".to_string());
     self.error_count.fetch_add(error_count, Ordering::AcqRel);
     Ok(ret)
   }
